@@ -11,7 +11,7 @@ for d in sorted(os.listdir(SD)):
     p = os.path.join(SD, d)
     if not os.path.isfile(os.path.join(p, "patch.diff")):
         continue
-    prop = d.split("-")[0]
+    prop = d.split("-")[0].rstrip("r")
     readme = open(os.path.join(p, "README.md")).read()
     title = readme.splitlines()[0].lstrip("# ").strip()
     m = re.search(r"^## What is needed for it to manifest[^\n]*\n(.*?)(?=^## )", readme, re.S | re.M)
